@@ -44,7 +44,9 @@ def cases(ctx):
                 prog = [{"op": "qalloc", "q": "q1"}, {"op": "rot", "axis": axis, "q": "q1", "n": {"tmpl": "t0"}, "d": 4},
                         {"op": "meas", "q": "q1", "to": {"kind": "new", "name": "m1"}, "inplace": v % 2 == 0}]
                 yield {"kind": "twin", "prog": prog, "values": {"t0": v}, "modes": ["pre"], "hardware": "generic", "script": [v % 2]}
-    for route in ("copies", "proto"):
+    # ("same-object": the compiled subroutine itself is filled in again for every round; "...-refused-first": a first attempt to
+    # fill in lacks a value and is refused, the complete one follows; "hw-template": the NV compiler on the hardware setting)
+    for route in ("copies", "proto", "same-object", "same-object-refused-first", "proto-refused-first", "hw-template"):
         for host_values in (False, True):
             for _ in range(2 if ctx.quick else 20):
                 k += 1
@@ -130,17 +132,33 @@ def _template_routes(ctx, case):
     from netqasm.sdk.qubit import Qubit
     from vf.harness.pipeline import Pipe
     route, values, nv = case["route"], case["values"], case["hardware"] == "nv"
-    pipe = Pipe(script=[0] * 16, hardware=case["hardware"], max_qubits=3)
+    hw_t = route == "hw-template"
+    pipe = Pipe(script=[0] * 16, hardware="nv" if hw_t else case["hardware"], max_qubits=3)
+    nv = nv or hw_t
     wrap = (lambda v: hostdiff._HostValue(v)) if case.get("host_values") else (lambda v: v)
     ctx.count("template_route_cases")
+    from netqasm.runtime.settings import set_is_using_hardware
     try:
+        set_is_using_hardware(hw_t)         # (after the harness has built its executor side, which resets the switch)
         with pipe.conn as conn:
             def block():
                 q = Qubit(conn)
                 q.rot_X(n=Template("a"), d=4)
-                q.rot_Z(n=Template("b"), d=3)
+                q.rot_Z(n=Template("b"), d=4 if hw_t else 3)
                 q.measure()
-            if route == "copies":
+            if route in ("same-object", "same-object-refused-first", "hw-template"):
+                block()
+                tmpl = conn.compile()
+                for a_, b_ in values:
+                    if route == "same-object-refused-first":
+                        try:
+                            tmpl.instantiate(conn.app_id, {"a": wrap(a_ ^ 1)})
+                            ctx.fail(case, "instantiate() without a value for template 'b' was accepted")
+                        except KeyError:
+                            ctx.count("incomplete_instantiations_refused")
+                    tmpl.instantiate(conn.app_id, {"a": wrap(a_), "b": wrap(b_)})
+                    conn.commit_subroutine(tmpl)
+            elif route == "copies":
                 block()
                 tmpl = conn.compile()
                 for a_, b_ in values:
@@ -151,11 +169,22 @@ def _template_routes(ctx, case):
                 for a_, b_ in values:
                     block()
                     proto = conn.builder.subrt_pop_pending_subroutine()
+                    if route == "proto-refused-first":
+                        try:
+                            proto.instantiate(conn.app_id, {"a": wrap(a_ ^ 1)})
+                            ctx.fail(case, "ProtoSubroutine.instantiate() without a value for template 'b' was accepted")
+                        except KeyError:
+                            ctx.count("incomplete_instantiations_refused")
                     proto.instantiate(conn.app_id, {"a": wrap(a_), "b": wrap(b_)})
                     conn.commit_protosubroutine(proto)
     except (hc.ControllerFault, hc.StepLimit) as e:
         ctx.fail(case, f"template route {route}: controller run failed: {e}")
         return ctx.case(case, True)
+    except Exception as e:
+        ctx.fail(case, f"template route {route}: the SDK could not compile / fill in / commit the templated block: {type(e).__name__}: {str(e)[:160]}")
+        return ctx.case(case, True)
+    finally:
+        set_is_using_hardware(False)
     got = [(ev[0], ev[2]) for ev in pipe.ex.trace if ev[0] in ("rot_x", "rot_z")]
     want = [x for a_, b_ in values for x in (("rot_x", a_), ("rot_z", b_))]
     if nv:
